@@ -82,7 +82,7 @@ func oracleC14(l *harness.Live) (c14Info, *harness.Failure) {
 	}
 	rv, err := xref.Eval(env, l.AST, l.Ctx)
 	if err != nil {
-		return info, harness.Failf("reference evaluates", err.Error(), "generator left the reference fragment")
+		return info, refFailure(err)
 	}
 	info.want = harness.FromRef(rv)
 	if ns, ok := rv.(xref.NodeSet); ok {
